@@ -528,6 +528,72 @@ def parse_errors_propagate(ctx, rule):
 MUTATORS = ('sort', 'append', 'remove', 'insert', 'extend', 'pop', 'clear', 'reverse', 'update', 'add', 'discard', 'setdefault', 'popitem')
 
 
+def loaders_read_only(ctx, rule):
+    """the configuration loaders read the mapping they are given and never write to it: the mapping (and every nested mapping / list
+    reached from it - a `protect` entry, an auth section) belongs to the caller, and one object may appear under several connections
+    (a YAML alias, a dict the caller reuses); a default written back into it by one connection is read by the next."""
+    conf = ctx.prog.module('configuration')
+    n = 0
+    for fi in ctx.prog.all_functions():
+        if fi.module is not conf or not isinstance(fi.node, ast.FunctionDef):
+            continue
+        params = {a.arg for a in ast.walk(fi.node.args) if isinstance(a, ast.arg)} - {fi.self_name or ''}
+        if not params:
+            continue
+        # names that hold the input or something reached from it
+        tainted = set(params)
+        for _ in range(4):
+            for x in walk_no_nested(fi.node):
+                src_e, tgts = None, []
+                if isinstance(x, ast.Assign):
+                    src_e, tgts = x.value, x.targets
+                elif isinstance(x, (ast.For, ast.comprehension)):
+                    src_e, tgts = x.iter, [x.target]
+                if src_e is None:
+                    continue
+                base = src_e
+                while True:
+                    if isinstance(base, ast.Subscript):
+                        base = base.value
+                    elif isinstance(base, ast.Call) and isinstance(base.func, ast.Attribute) and base.func.attr in ('get', 'items', 'values', 'keys'):
+                        base = base.func.value
+                    elif isinstance(base, ast.Call) and isinstance(base.func, ast.Name) and base.func.id in ('enumerate', 'sorted', 'reversed', 'iter') \
+                            and base.args:
+                        base = base.args[0]            # (sorted() copies the list but not the mappings in it)
+                    else:
+                        break
+                if isinstance(base, ast.Name) and base.id in tainted:
+                    for t in tgts:
+                        for y in ast.walk(t):
+                            if isinstance(y, ast.Name):
+                                tainted.add(y.id)
+        n += 1
+
+        def root(e):
+            while isinstance(e, (ast.Subscript, ast.Attribute)):
+                e = e.value
+            if isinstance(e, ast.Call) and isinstance(e.func, ast.Attribute) and e.func.attr == 'get':
+                return root(e.func.value)
+            return e.id if isinstance(e, ast.Name) else None
+        bad = []
+        for x in walk_no_nested(fi.node):
+            if isinstance(x, ast.Call) and isinstance(x.func, ast.Attribute) and x.func.attr in (
+                    'setdefault', 'update', 'pop', 'popitem', 'clear', 'append', 'extend', 'insert', 'remove', 'sort', 'reverse', '__setitem__',
+                    '__delitem__') and root(x.func.value) in tainted and not (
+                        isinstance(x.func.value, ast.Attribute) and isinstance(x.func.value.value, ast.Name)
+                        and x.func.value.value.id == (fi.self_name or '')):
+                bad.append(x)
+            elif isinstance(x, ast.Subscript) and isinstance(x.ctx, (ast.Store, ast.Del)) and root(x.value) in tainted:
+                bad.append(x)
+        for x in bad:
+            ctx.bad(rule, (rule, 'loader-writes-input', fi.qual, src(x)[:50]),
+                    '%s writes to the configuration mapping it was given (`%s`): the mapping is the caller\'s and may be shared by other '
+                    'connections' % (fi.qual, src(x)[:80]), ctx.site(fi, x))
+        if not bad:
+            ctx.ok(rule, '%s only reads the mapping it is given' % fi.qual, ctx.site(fi, fi.node))
+    ctx.floor('%s configuration loaders taking a mapping' % rule, n, 5, rule=rule)
+
+
 def config_not_mutated(ctx, rule):
     """the loaded configuration is shared by every IKE_SA of a connection and by every negotiation on it: nothing rearranges it in
     place.  (1) the value classes of message.py (Proposal, Transform, TrafficSelector) have no method that changes the receiver - also
@@ -652,6 +718,41 @@ def miss_path(pc, exc='StopIteration'):
     holds = all(is_const(h) and bool(cval(h)) == a[1] for h, a in zip(hit, rel))
     fails = any(is_const(o) and bool(cval(o)) != a[1] for o, a in zip(oth, rel)) or any(not is_const(o) for o in oth)
     return holds and fails
+
+
+def identity_with_raw_int(ctx, rule, quals):
+    """`x is Enum.MEMBER` is never true for an x that is a plain int (an octet out of struct.unpack, a literal, arithmetic): where such a
+    value can reach the comparison, the branch is silently dead for it although the numbers are equal.  Reports every identity
+    comparison with an enumeration member in the given functions whose other operand has a raw-integer origin."""
+    n = 0
+    for q in sorted(quals):
+        fi = ctx.prog.functions.get(q)
+        if fi is None:
+            continue
+        for x in walk_no_nested(fi.node):
+            if not (isinstance(x, ast.Compare) and len(x.ops) == 1 and isinstance(x.ops[0], (ast.Is, ast.IsNot))):
+                continue
+            sides = [x.left, x.comparators[0]]
+            members = [s for s in sides if attr_chain(s) and _enum_member(ctx, s, fi)]
+            if len(members) != 1:
+                continue
+            other = sides[1] if members[0] is sides[0] else sides[0]
+            n += 1
+            t = ctx.res.expr_type(other, fi)
+            raw = any(isinstance(y, tuple) and y[0] == 'libobj' and str(y[1]).startswith('struct.') for y in t) \
+                or isinstance(other, (ast.Constant, ast.BinOp))
+            ctx.check(not raw, rule, '%s: identity comparison `%s` with an enumeration member of a value that can be a plain integer '
+                      '(unpacked from the wire): never true for it' % (fi.qual, src(x)), key=(rule, 'identity-raw-int', fi.qual, src(members[0])),
+                      site=ctx.site(fi, x))
+    return n
+
+
+def _enum_member(ctx, e, fi):
+    ch = attr_chain(e)
+    if not ch or '.' not in ch:
+        return False
+    c = ctx.prog.resolve_class_expr(e.value, fi.module, fi.cls) if isinstance(e, ast.Attribute) else None
+    return c is not None and ctx.prog.is_enum(c) and e.attr in c.attrs
 
 
 def lookup_protocol(ctx, qual):
